@@ -3,7 +3,7 @@ PROPERTY = 'C11'
 
 
 def plan(tier, seed):
-    nctx, nfrag = 6, 24
+    nctx, nfrag = 6, 30
     nmax = 3 if tier == 'quick' else 4
     units = []
     for ci in range(nctx):
@@ -19,6 +19,8 @@ def plan(tier, seed):
                         continue
                     units.append(dict(hfile='verbatim.py', fname='c11', args=(ci, fi, n, user)))
         units.append(dict(hfile='verbatim.py', fname='c11_without_option', args=(ci,)))
+        for n in ((0, 1) if tier == 'quick' else (0, 1, 2)):
+            units.append(dict(hfile='verbatim.py', fname='c11_both', args=(ci, n)))
         # user-chosen names that collide with names the parser treats specially
         for nm in ('equation', 'align*', 'math', 'itemize', 'document', 'tabular', 'displaymath'):
             for fi, n in ((0, 2), (3, 1), (4, 1), (14, 1), (11, 1)):
